@@ -1,12 +1,12 @@
 SPECIFICATION Spec
 CONSTANT Profile = "layout"
 CONSTANT MaxBanks = 1
-CONSTANT MaxSegs = 4
+CONSTANT MaxSegs = 2
 CONSTANT Deviations = {}
 CONSTANT Base = 4096
-CONSTANT Starts = {"0", "2", "4", "prev"}
+CONSTANT Starts = {"0", "2", "prev"}
 CONSTANT Lens = {1, 3}
-CONSTANT Sizes = {99999, 5}
+CONSTANT Sizes = {88888, 0, 65536, 65537}
 INVARIANT Strict
 INVARIANT SameAsFunction
 INVARIANT MergePrefix
